@@ -20,7 +20,7 @@ static UNPOISONED_AFTER_PANIC: AtomicBool = AtomicBool::new(false);
 
 /// P panics (or is cancelled) with a typed payload, optionally while holding a guard; a bystander and a later
 /// locker run alongside; afterwards a fresh coroutine reuses the recycled stack (pool capacity 1)
-fn panic_iso(e: &'static Engine, workers: usize, yield_before: bool, hold: Hold, cancel_instead: bool) {
+fn panic_iso(e: &'static Engine, workers: usize, yield_before: bool, hold: Hold, cancel_instead: bool, thread_locker: bool) {
     rt_init_opts(workers, 1, 0x4000, 3_600_000_000_000);
     let m = Arc::new(Mutex::new(0u32));
     let rw = Arc::new(RwLock::new(0u32));
@@ -57,7 +57,8 @@ fn panic_iso(e: &'static Engine, workers: usize, yield_before: bool, hold: Hold,
     });
     let (m2, rw2) = (m.clone(), rw.clone());
     // a locker that may come before, during or after the panic: it must never hang
-    let l = go!(move || match hold {
+    static LOCKER_RESULT: std::sync::atomic::AtomicU32 = std::sync::atomic::AtomicU32::new(0);
+    let locker = move || match hold {
         Hold::Nothing => 0u32,
         Hold::Mutex => match m2.lock() {
             Ok(_g) => {
@@ -77,7 +78,43 @@ fn panic_iso(e: &'static Engine, workers: usize, yield_before: bool, hold: Hold,
             }
             Err(_) => 2,
         },
-    });
+    };
+    // the locker is a coroutine or a plain thread (a thread woken by the hand-off runs on its own)
+    let (l, lt) = if thread_locker {
+        (None, Some(e.spawn("locker", move || LOCKER_RESULT.store(locker(), Ordering::SeqCst))))
+    } else {
+        (Some(go!(locker)), None)
+    };
+    // a prober thread that tries the lock from the moment the holder starts to panic: whatever it gets
+    // was released by the unwind and must already be poisoned
+    if hold != Hold::Nothing && !cancel_instead {
+        let (m3, rw3) = (m.clone(), rw.clone());
+        e.spawn("prober", move || {
+            e.wait_flag(&PANICKING);
+            for _ in 0..3 {
+                let got = match hold {
+                    Hold::Mutex => match m3.try_lock() {
+                        Ok(_) => Some(true),
+                        Err(TryLockError::Poisoned(_)) => Some(false),
+                        Err(TryLockError::WouldBlock) => None,
+                    },
+                    _ => match rw3.try_write() {
+                        Ok(_) => Some(true),
+                        Err(TryLockError::Poisoned(_)) => Some(false),
+                        Err(TryLockError::WouldBlock) => None,
+                    },
+                };
+                match got {
+                    Some(true) => {
+                        UNPOISONED_AFTER_PANIC.store(true, Ordering::SeqCst);
+                        break;
+                    }
+                    Some(false) => break,
+                    None => e.sched_point(),
+                }
+            }
+        });
+    }
     if cancel_instead {
         unsafe { p.coroutine().cancel() };
     }
@@ -98,10 +135,17 @@ fn panic_iso(e: &'static Engine, workers: usize, yield_before: bool, hold: Hold,
         Ok(5) => {}
         _ => e.fail("bystander", "a bystander coroutine did not return its value"),
     }
-    let lr = match l.join() {
-        Ok(v) => v,
-        Err(_) => e.fail("bystander", "the locker coroutine panicked"),
+    let lr = match l {
+        Some(l) => match l.join() {
+            Ok(v) => v,
+            Err(_) => e.fail("bystander", "the locker coroutine panicked"),
+        },
+        None => {
+            e.join(lt.unwrap());
+            LOCKER_RESULT.load(Ordering::SeqCst)
+        }
     };
+    e.join_all();
     if UNPOISONED_AFTER_PANIC.load(Ordering::SeqCst) {
         e.fail("poison_visible_on_release", "a locker got the lock from the guard dropped by the panic and saw it unpoisoned (Ok)");
     }
@@ -233,8 +277,11 @@ pub fn build(quick: bool) -> Vec<Scenario> {
                 "C13",
                 "panic_isolation",
                 format!("panic.{}{:?}{}.w{}", if yb { "yield_first." } else { "" }, hold, if cancel { ".cancel_unwind" } else { "" }, w),
-                Arc::new(move |e| panic_iso(e, w, yb, hold, cancel)),
+                Arc::new(move |e| panic_iso(e, w, yb, hold, cancel, false)),
             ));
+        }
+        for hold in [Hold::Mutex, Hold::RwWrite] {
+            v.push(Scenario::new("C13", "panic_isolation", format!("panic.{:?}.thread_locker.w{}", hold, w), Arc::new(move |e| panic_iso(e, w, false, hold, false, true))));
         }
         v.push(Scenario::new("C13", "owner_reraise", format!("scope_child_panic.w{}", w), Arc::new(move |e| owner_reraise(e, w, false))));
         v.push(Scenario::new("C13", "owner_reraise", format!("select_arm_panic.w{}", w), Arc::new(move |e| owner_reraise(e, w, true))));
